@@ -84,6 +84,39 @@ pub fn run(reg: &dyn Registry, ctx: &Ctx) -> Outcome {
         if c1.iter().any(|&b| !b) || c2.iter().any(|&b| !b) {
             ctx.machinery(&format!("{}: not all 256 indirection indices were exercised", name));
         }
+        // the bare block core (public, used with rand_core's BlockRng): whole blocks in the same order
+        {
+            let core_name = if is64 { "Isaac64Core" } else { "IsaacCore" };
+            let core: &dyn GenType = reg.core_types().into_iter().find(|c| c.info().name == core_name).expect(core_name);
+            let wb = if is64 { 8 } else { 4 };
+            let res: Vec<_> = seeds
+                .par_iter()
+                .map(|s| {
+                    let mk = |w: String, pos: usize| (w, json!({"kind":"note","type":core_name,"seed":hex(s),"position":pos}));
+                    let mut g = from_seed_guarded(core, s).map_err(|e| mk(e, 0))?;
+                    let mut m = if is64 { Model::I64(Isaac64::from_seed_bytes(s)) } else { Model::I32(Isaac::from_seed_bytes(s)) };
+                    let mut buf = vec![0u8; 256 * wb * 3];
+                    guarded(|| g.fill_bytes(&mut buf)).map_err(|o| mk(format!("generate panicked: {:?}", o), 0))?;
+                    for (i, c) in buf.chunks(wb).enumerate() {
+                        let mut b = [0u8; 8];
+                        b[..wb].copy_from_slice(c);
+                        let r = u64::from_le_bytes(b);
+                        let e = m.next();
+                        if r != e {
+                            return Err(mk(format!("word {} of block {} is {:#x}, reference gives {:#x}", i % 256, i / 256, r, e), i));
+                        }
+                    }
+                    Ok(768u64)
+                })
+                .collect();
+            ctx.add("core_seeds", seeds.len() as u64);
+            for r in res {
+                match r {
+                    Ok(n) => ctx.add("words_compared", n),
+                    Err((w, replay)) => ctx.violation(&format!("C03:{}:blocks", core_name), &format!("{}: {}", core_name, w), replay),
+                }
+            }
+        }
         // long runs
         let blocks = if thorough { 1 << 18 } else { 1 << 14 };
         let mut long_seeds = vec![alphabet::zero(len), alphabet::ones(len)];
@@ -207,7 +240,7 @@ pub fn run(reg: &dyn Registry, ctx: &Ctx) -> Outcome {
             }
         }
     }
-    ctx.set("states", ctx.get("seeds") + ctx.get("long_seeds") + ctx.get("w3_seeds"));
+    ctx.set("states", ctx.get("seeds") + ctx.get("core_seeds") + ctx.get("long_seeds") + ctx.get("w3_seeds"));
     ctx.set("transitions", ctx.get("words_compared"));
     ctx.set_exhaustive(true);
     Outcome {
@@ -218,7 +251,7 @@ pub fn run(reg: &dyn Registry, ctx: &Ctx) -> Outcome {
             traces: "states",
             evaluations: "states",
             distinct: "seeds",
-            rule: "per generator: seeds = Z, O, every single bit and every pair of seed bits, walking zeros, byte probes, dense chained seeds (distinct by construction); each compared with the reference for all 768 words of the first 3 blocks; a subset for 2^14 (quick) / 2^18 (thorough) blocks; seed_from_u64(0) against the unseeded reference for 4 blocks; every triple of seed bits (W3) is compared for the first block + 8 words".into(),
+            rule: "per generator: seeds = Z, O, every single bit and every pair of seed bits, walking zeros, byte probes, dense chained seeds (distinct by construction); each compared with the reference for all 768 words of the first 3 blocks, through the generator and through the bare block core; a subset for 2^14 (quick) / 2^18 (thorough) blocks; seed_from_u64(0) against the unseeded reference for 4 blocks; every triple of seed bits (W3) is compared for the first block + 8 words".into(),
         },
     }
 }
